@@ -5,6 +5,8 @@ package main
 // points.
 
 import (
+	"crypto/sha256"
+	"encoding/hex"
 	"errors"
 	"fmt"
 	"sort"
@@ -148,4 +150,22 @@ func (d *SimDisk) String() string {
 		s += fmt.Sprintf("%s (%d bytes)\n", p, len(d.Files[p].Data))
 	}
 	return s
+}
+
+// Digest hashes every file (base name and content) on the disk, in path order.
+func (d *SimDisk) Digest() string {
+	h := sha256.New()
+	for _, p := range d.Paths() {
+		base := p
+		for i := len(p) - 1; i >= 0; i-- {
+			if p[i] == '/' {
+				base = p[i+1:]
+				break
+			}
+		}
+		f := d.Get(p)
+		fmt.Fprintf(h, "%s %d %d %d\n", base, len(f.Data), f.Opens, f.Closes)
+		h.Write(f.Data)
+	}
+	return hex.EncodeToString(h.Sum(nil)[:12])
 }
